@@ -65,6 +65,10 @@ def _rules():
             lambda R, c, rid: c06.rule_e(R, c, rid),
             lambda R, c, rid: c06.rule_f(R, c, rid),
         ],
+        "map-api": [
+            lambda R, c, rid: shared.map_api(R, c, rid),
+            lambda R, c, rid: preds.rule(R, c, rid, ["map_contains_key"]),
+        ],
         "flags": [
             lambda R, c, rid: preds.rule(R, c, rid, ["flags_check"]),
             lambda R, c, rid: preds.flag_table(R, c, rid),
@@ -76,9 +80,9 @@ def _rules():
 DEPENDS = {
     "C01": ["squash", "splice", "partial", "flags", "stash-deletes", "lookup", "content", "export"],
     "C02": ["stash-deletes", "lookup", "export"],
-    "C03": ["splice", "conflict", "lookup", "content"],
+    "C03": ["splice", "conflict", "lookup", "content", "map-api"],
     "C04": ["splice", "dependency", "stash-deletes", "lookup", "content"],
-    "C05": ["conflict", "squash", "splice", "dependency"],
+    "C05": ["conflict", "squash", "splice", "dependency", "map-api"],
     "C06": ["dependency", "delete-set", "slice", "partial", "lookup", "content"],
     "C07": ["delete-set", "slice", "partial", "export"],
     "C08": ["slice", "delete-set", "partial"],
@@ -88,7 +92,7 @@ DEPENDS = {
     "C14": ["splice", "liveness", "lookup"],
     "C15": ["squash", "splice", "content"],
     "C16": ["delete-set"],
-    "C17": ["flags", "content"],
+    "C17": ["flags", "content", "map-api"],
     "C18": ["dependency", "stash-deletes", "partial", "export"],
     "C20": ["dependency", "splice", "squash", "lookup"],
 }
